@@ -133,8 +133,8 @@ impl_primitive!(
     (1, UnShape),
     (1[1], UnScan),
     (1(2), UnMap),
-    (0(0), UnStack, Impure),
-    (0(0)[1], UnDump, Impure),
+    (0(0), UnStack, Mutating),
+    (0(0)[1], UnDump, Mutating),
     (0[2], UnFill),
     (1, Primes),
     (1, PseudoIsPrime),
